@@ -114,7 +114,7 @@ def main():
             na.append({'property_id': pid, 'reason': PENDING_REASON})
     m = {
         'version': 1,
-        'setup_cmd': 'cd lean && lake build',
+        'setup_cmd': './setup.sh',
         'hooks': {'guard': 'UDSONCAN_VERIF', 'enable': 'none needed: no source hooks; the harness substitutes udsoncan.client.time and a stub connection from outside',
                   'baseline_off_cmd': 'cd /repo && /venv/bin/python -m pytest -ra -q -p no:cacheprovider --timeout=900',
                   'source_commits': [], 'add_only': True},
